@@ -516,19 +516,82 @@ theorem clean_iff_silent_group (o : Options) (w : Schema) (r : Rule)
   rw [cleanRule_groupSpec o w r key val loc hg, runRule_group o w r key val loc hg]
   exact (groupRule_nil_iff r _ key val loc).symm
 
+/-- **The rule is keyed by the fully-qualified method name.**  The handler keeps the methods in Go
+    maps keyed by `method.FullName()` (`rpcUniqueCoded`, `rpcUniqueBy RpcEntry.full`).  On every
+    workspace whose methods have pairwise distinct full names — every linked image — those maps
+    never merge two methods and the coded rule IS the documented one: every method a row of its
+    own, counted over the whole module set, whatever the names of the services and RPCs
+    (`rpcUnique`, `rpcUniqueT` on the method table). -/
+theorem rpc_unique_keyed_by_full_name (o : Options) (w : Schema) (hfn : FullNamesDistinct w) :
+    runRule o w .RPC_REQUEST_RESPONSE_UNIQUE = rpcUniqueT o (rpcTable w) := by
+  rw [runRule_global o w _ rfl]
+  exact rpcUniqueCoded_eq o w hfn
+
+/-- the keyed rule never reports more than the documented one (two methods with one full name —
+    no linked image has them — make `FullNameToMethod` fail: nothing is reported) -/
+theorem rpc_unique_coded_sub_documented (o : Options) (w : Schema) (a : Annotation)
+    (h : a ∈ runRule o w .RPC_REQUEST_RESPONSE_UNIQUE) : a ∈ rpcUniqueT o (rpcTable w) := by
+  rw [runRule_global o w _ rfl] at h
+  exact rpcUniqueCoded_sub o w a h
+
+/-- The v1 / v2 witness: `acme.v1.ThingService.GetThing` and `acme.v2.ThingService.GetThing` both
+    take `common.v1.GetThingRequest`. -/
+def twinEntries : List RpcEntry :=
+  [⟨"acme.v1.ThingService.GetThing".toList, "ThingService.GetThing".toList,
+     ⟨"acme/v1/thing.proto".toList, [6, 0, 2, 0], "common.v1.GetThingRequest".toList, "acme.v1.GetThingResponse".toList⟩⟩,
+   ⟨"acme.v2.ThingService.GetThing".toList, "ThingService.GetThing".toList,
+     ⟨"acme/v2/thing.proto".toList, [6, 0, 2, 0], "common.v1.GetThingRequest".toList, "acme.v2.GetThingResponse".toList⟩⟩]
+
+/-- **Why the key must be the FULL name.**  On the v1 / v2 witness the handler keyed by the full
+    name reports both RPCs (as documented); the same handler keyed by `method.NestedName()`
+    (`Service.Method`, no package) merges the two methods into one map entry and reports NOTHING. -/
+theorem rpc_unique_nested_key_counterexample :
+    rpcUniqueBy RpcEntry.full {} twinEntries =
+        [⟨.RPC_REQUEST_RESPONSE_UNIQUE, "acme/v1/thing.proto".toList, [6, 0, 2, 0]⟩,
+         ⟨.RPC_REQUEST_RESPONSE_UNIQUE, "acme/v2/thing.proto".toList, [6, 0, 2, 0]⟩] ∧
+    rpcUniqueBy RpcEntry.full {} twinEntries = rpcUniqueT {} (twinEntries.map (·.row)) ∧
+    rpcUniqueBy RpcEntry.nested {} twinEntries = [] := by
+  decide
+
+/-- the witness as a workspace: two packages, each with `service ThingService { rpc GetThing }` -/
+def twinWs : Schema :=
+  [{ path := "acme/v1/thing.proto".toList, pkg := "acme.v1".toList,
+     svcs := [⟨"ThingService".toList, " Doc.\n".toList,
+       [⟨"GetThing".toList, " Doc.\n".toList, "common.v1.GetThingRequest".toList, "acme.v1.GetThingResponse".toList, false, false⟩]⟩] },
+   { path := "acme/v2/thing.proto".toList, pkg := "acme.v2".toList,
+     svcs := [⟨"ThingService".toList, " Doc.\n".toList,
+       [⟨"GetThing".toList, " Doc.\n".toList, "common.v1.GetThingRequest".toList, "acme.v2.GetThingResponse".toList, false, false⟩]⟩] }]
+
+example : FullNamesDistinct twinWs := by decide
+
+/-- `lint` on the v1 / v2 workspace reports both RPCs (the model keys as the code does) -/
+example : lint {} [.RPC_REQUEST_RESPONSE_UNIQUE] twinWs =
+    [⟨.RPC_REQUEST_RESPONSE_UNIQUE, "acme/v1/thing.proto".toList, [6, 0, 2, 0]⟩,
+     ⟨.RPC_REQUEST_RESPONSE_UNIQUE, "acme/v2/thing.proto".toList, [6, 0, 2, 0]⟩] := by decide
+
+example : (rpcEntries twinWs).map (·.full) = ["acme.v1.ThingService.GetThing".toList, "acme.v2.ThingService.GetThing".toList] ∧
+    (rpcEntries twinWs).map (·.nested) = ["ThingService.GetThing".toList, "ThingService.GetThing".toList] := by decide
+
 /-- **RPC_REQUEST_RESPONSE_UNIQUE, exactly**: the annotated RPCs are the rows of the method table
-    that violate `RpcViolation` (same request and response type; a type used by two RPCs; with the
-    allow_* exemptions each on its own side). -/
-theorem violations_exact_rpc_unique (o : Options) (rules : List Rule) (w : Schema) (a : Annotation) :
+    that violate `RpcViolation` (same request and response type; a type used by two RPCs — of any
+    service, file and package of the module set; with the allow_* exemptions each on its own side).
+    `hfn`: the methods have pairwise distinct fully-qualified names (true of every linked image);
+    the handler keys its maps by that name (`rpc_unique_keyed_by_full_name`). -/
+theorem violations_exact_rpc_unique (o : Options) (rules : List Rule) (w : Schema) (hfn : FullNamesDistinct w)
+    (a : Annotation) :
     (a ∈ lint o rules w ∧ a.rule = .RPC_REQUEST_RESPONSE_UNIQUE) ↔
       .RPC_REQUEST_RESPONSE_UNIQUE ∈ rules ∧ ∃ x ∈ rpcTable w, a = x.ann ∧ RpcViolation o (rpcTable w) x := by
   rw [mem_lint_iff]
   constructor
   · rintro ⟨⟨hr, ha⟩, e⟩
     rw [e] at hr ha
+    rw [rpc_unique_keyed_by_full_name o w hfn] at ha
     exact ⟨hr, (mem_rpcUniqueT_iff o _ a).mp ha⟩
   · rintro ⟨hr, x, hx, rfl, hv⟩
-    exact ⟨⟨hr, (mem_rpcUniqueT_iff o _ _).mpr ⟨x, hx, rfl, hv⟩⟩, rfl⟩
+    refine ⟨⟨hr, ?_⟩, rfl⟩
+    show x.ann ∈ runRule o w .RPC_REQUEST_RESPONSE_UNIQUE
+    rw [rpc_unique_keyed_by_full_name o w hfn]
+    exact (mem_rpcUniqueT_iff o _ _).mpr ⟨x, hx, rfl, hv⟩
 
 /-- **STABLE_PACKAGE_NO_IMPORT_UNSTABLE, exactly**: import `i` of a target file with a stable
     package is annotated iff it resolves (among the target files) to a file with an unstable package. -/
@@ -1245,7 +1308,7 @@ theorem plant_syntax_unspecified (o : Options) (rules : List Rule) (w : Schema) 
     violates uniqueness (`RpcViolation`) in the method table in which that one row got the new
     request type.  Nothing else, for no other rule. -/
 theorem plant_rpc_request_type (o : Options) (rules : List Rule) (w : Schema) (f : File)
-    (hclean : cleanB o rules w = true) (hr : .RPC_REQUEST_STANDARD_NAME ∈ rules)
+    (hclean : cleanB o rules w = true) (hr : .RPC_REQUEST_STANDARD_NAME ∈ rules) (hfn : FullNamesDistinct w)
     (hf : FileAt w f) (q0 : List Nat) (s0 : Service) (m0 : Rpc) (h0 : (q0, s0, m0) ∈ fileRpcs f)
     (t : Str) (hbad : stdNameBad o true s0 { m0 with inType := t } = true) (a : Annotation) :
     a ∈ lint o rules (setRequestType f.path q0 t w) ↔
@@ -1273,8 +1336,8 @@ theorem plant_rpc_request_type (o : Options) (rules : List Rule) (w : Schema) (f
     simpa [setRequestType, plantDecl, tauRpc, opRpc, ann, mapFile] using h
   have huniq : runRule o (setRequestType f.path q0 t w) .RPC_REQUEST_RESPONSE_UNIQUE =
       rpcUniqueT o ((rpcTable w).map (fun x => if x.file = f.path ∧ x.path = q0 then { x with inType := t } else x)) := by
-    rw [runRule_global o _ _ rfl]
-    show rpcUniqueT o (rpcTable (plantDecl f.path (opRpc q0 (fun m => {m with inType := t})) w)) = _
+    show runRule o (plantDecl f.path (opRpc q0 (fun m => {m with inType := t})) w) _ = _
+    rw [rpc_unique_keyed_by_full_name o _ (fullNamesDistinct_opRpc w f q0 (fun m => {m with inType := t}) (fun _ => rfl) hfn)]
     rw [rpcTable_opRpc w f q0 _ (fun x => { x with inType := t }) (fun _ _ => rfl)]
   rw [mem_lint_of_dirty o rules _ [.RPC_REQUEST_STANDARD_NAME, .RPC_REQUEST_RESPONSE_UNIQUE]]
   · constructor
@@ -1297,7 +1360,7 @@ theorem plant_rpc_request_type (o : Options) (rules : List Rule) (w : Schema) (f
 /-- **Changing the response type of an RPC**: RPC_RESPONSE_STANDARD_NAME at that RPC's response
     type, plus the uniqueness violations of the new method table. -/
 theorem plant_rpc_response_type (o : Options) (rules : List Rule) (w : Schema) (f : File)
-    (hclean : cleanB o rules w = true) (hr : .RPC_RESPONSE_STANDARD_NAME ∈ rules)
+    (hclean : cleanB o rules w = true) (hr : .RPC_RESPONSE_STANDARD_NAME ∈ rules) (hfn : FullNamesDistinct w)
     (hf : FileAt w f) (q0 : List Nat) (s0 : Service) (m0 : Rpc) (h0 : (q0, s0, m0) ∈ fileRpcs f)
     (t : Str) (hbad : stdNameBad o false s0 { m0 with outType := t } = true) (a : Annotation) :
     a ∈ lint o rules (setResponseType f.path q0 t w) ↔
@@ -1325,8 +1388,8 @@ theorem plant_rpc_response_type (o : Options) (rules : List Rule) (w : Schema) (
     simpa [setResponseType, plantDecl, tauRpc, opRpc, ann, mapFile] using h
   have huniq : runRule o (setResponseType f.path q0 t w) .RPC_REQUEST_RESPONSE_UNIQUE =
       rpcUniqueT o ((rpcTable w).map (fun x => if x.file = f.path ∧ x.path = q0 then { x with outType := t } else x)) := by
-    rw [runRule_global o _ _ rfl]
-    show rpcUniqueT o (rpcTable (plantDecl f.path (opRpc q0 (fun m => {m with outType := t})) w)) = _
+    show runRule o (plantDecl f.path (opRpc q0 (fun m => {m with outType := t})) w) _ = _
+    rw [rpc_unique_keyed_by_full_name o _ (fullNamesDistinct_opRpc w f q0 (fun m => {m with outType := t}) (fun _ => rfl) hfn)]
     rw [rpcTable_opRpc w f q0 _ (fun x => { x with outType := t }) (fun _ _ => rfl)]
   rw [mem_lint_of_dirty o rules _ [.RPC_RESPONSE_STANDARD_NAME, .RPC_REQUEST_RESPONSE_UNIQUE]]
   · constructor
@@ -1351,7 +1414,7 @@ theorem plant_rpc_response_type (o : Options) (rules : List Rule) (w : Schema) (
     option) makes RPC_REQUEST_RESPONSE_UNIQUE report BOTH RPCs. -/
 theorem plant_rpc_reuse_detected (o : Options) (rules : List Rule) (w : Schema) (f : File)
     (hclean : cleanB o rules w = true) (hr : .RPC_REQUEST_STANDARD_NAME ∈ rules)
-    (hu : .RPC_REQUEST_RESPONSE_UNIQUE ∈ rules)
+    (hu : .RPC_REQUEST_RESPONSE_UNIQUE ∈ rules) (hfn : FullNamesDistinct w)
     (hf : FileAt w f) (q0 : List Nat) (s0 : Service) (m0 : Rpc) (h0 : (q0, s0, m0) ∈ fileRpcs f)
     (t : Str) (hbad : stdNameBad o true s0 { m0 with inType := t } = true)
     (y : RpcRow) (hy : y ∈ rpcTable w) (hother : ¬(y.file = f.path ∧ y.path = q0)) (hyt : usesType t y = true)
@@ -1372,9 +1435,9 @@ theorem plant_rpc_reuse_detected (o : Options) (rules : List Rule) (w : Schema) 
       apply hother
       rw [← e]; exact ⟨rfl, rfl⟩
   constructor
-  · apply (plant_rpc_request_type o rules w f hclean hr hf q0 s0 m0 h0 t hbad _).mpr
+  · apply (plant_rpc_request_type o rules w f hclean hr hfn hf q0 s0 m0 h0 t hbad _).mpr
     exact Or.inr ⟨hu, _, hx0', rfl, Or.inr ⟨t, by simp [usesType], hcnt, Or.inl hne⟩⟩
-  · apply (plant_rpc_request_type o rules w f hclean hr hf q0 s0 m0 h0 t hbad _).mpr
+  · apply (plant_rpc_request_type o rules w f hclean hr hfn hf q0 s0 m0 h0 t hbad _).mpr
     exact Or.inr ⟨hu, y, hy', rfl, Or.inr ⟨t, hyt, hcnt, Or.inl hne⟩⟩
 
 /-- **The same message as request and response of one RPC** (response type := its own request
@@ -1382,7 +1445,7 @@ theorem plant_rpc_reuse_detected (o : Options) (rules : List Rule) (w : Schema) 
     RPC_REQUEST_RESPONSE_UNIQUE reports that RPC. -/
 theorem plant_rpc_same_type_detected (o : Options) (rules : List Rule) (w : Schema) (f : File)
     (hclean : cleanB o rules w = true) (hr : .RPC_RESPONSE_STANDARD_NAME ∈ rules)
-    (hu : .RPC_REQUEST_RESPONSE_UNIQUE ∈ rules)
+    (hu : .RPC_REQUEST_RESPONSE_UNIQUE ∈ rules) (hfn : FullNamesDistinct w)
     (hf : FileAt w f) (q0 : List Nat) (s0 : Service) (m0 : Rpc) (h0 : (q0, s0, m0) ∈ fileRpcs f)
     (hbad : stdNameBad o false s0 { m0 with outType := m0.inType } = true)
     (hsame : o.rpcAllowSameRequestResponse = false)
@@ -1391,7 +1454,7 @@ theorem plant_rpc_same_type_detected (o : Options) (rules : List Rule) (w : Sche
     (⟨.RPC_REQUEST_RESPONSE_UNIQUE, f.path, q0⟩ : Annotation) ∈
       lint o rules (setResponseType f.path q0 m0.inType w) := by
   have hx0 := rpcRow_mem w f hf q0 s0 m0 h0
-  apply (plant_rpc_response_type o rules w f hclean hr hf q0 s0 m0 h0 m0.inType hbad _).mpr
+  apply (plant_rpc_response_type o rules w f hclean hr hfn hf q0 s0 m0 h0 m0.inType hbad _).mpr
   refine Or.inr ⟨hu, ⟨f.path, q0, m0.inType, m0.inType⟩, List.mem_map.mpr ⟨_, hx0, by simp⟩, rfl,
     Or.inl ⟨hsame, rfl, hne⟩⟩
 
@@ -1916,7 +1979,7 @@ example : lint {} Rule.all (unsetSyntax pA.path pw) = [⟨.SYNTAX_SPECIFIED, pA.
 -- both directions)
 example : (⟨.RPC_REQUEST_STANDARD_NAME, pA.path, pathList ++ [2]⟩ : Annotation) ∈
     lint {} Rule.all (setRequestType pA.path pathList "acme.foo.v1.ListFooReq".toList pw) :=
-  (plant_rpc_request_type {} Rule.all pw pA pw_clean (by decide) pA_at pathList pSvc pList pList_mem
+  (plant_rpc_request_type {} Rule.all pw pA pw_clean (by decide) pw_full_names pA_at pathList pSvc pList pList_mem
     _ (by decide) _).mpr (Or.inl rfl)
 
 example : lint {} Rule.all (setRequestType pA.path pathList "acme.foo.v1.ListFooReq".toList pw) =
@@ -1924,7 +1987,7 @@ example : lint {} Rule.all (setRequestType pA.path pathList "acme.foo.v1.ListFoo
 
 example : (⟨.RPC_RESPONSE_STANDARD_NAME, pA.path, pathList ++ [3]⟩ : Annotation) ∈
     lint {} Rule.all (setResponseType pA.path pathList "acme.foo.v1.ListFooReply".toList pw) :=
-  (plant_rpc_response_type {} Rule.all pw pA pw_clean (by decide) pA_at pathList pSvc pList pList_mem
+  (plant_rpc_response_type {} Rule.all pw pA pw_clean (by decide) pw_full_names pA_at pathList pSvc pList pList_mem
     _ (by decide) _).mpr (Or.inl rfl)
 
 -- the same request message for two RPCs: both are reported
@@ -1933,7 +1996,7 @@ example :
       lint {} Rule.all (setRequestType pA.path pathList "acme.foo.v1.GetFooRequest".toList pw) ∧
     (⟨.RPC_REQUEST_RESPONSE_UNIQUE, pA.path, [6, 0, 2, 0]⟩ : Annotation) ∈
       lint {} Rule.all (setRequestType pA.path pathList "acme.foo.v1.GetFooRequest".toList pw) :=
-  plant_rpc_reuse_detected {} Rule.all pw pA pw_clean (by decide) (by decide) pA_at pathList pSvc pList pList_mem
+  plant_rpc_reuse_detected {} Rule.all pw pA pw_clean (by decide) (by decide) pw_full_names pA_at pathList pSvc pList pList_mem
     _ (by decide) ⟨pA.path, [6, 0, 2, 0], pGet.inType, pGet.outType⟩ (by decide) (by decide) (by decide) (by decide)
 
 example : lint {} Rule.all (setRequestType pA.path pathList "acme.foo.v1.GetFooRequest".toList pw) =
@@ -1943,7 +2006,7 @@ example : lint {} Rule.all (setRequestType pA.path pathList "acme.foo.v1.GetFooR
 -- the same message as request and response of one RPC
 example : (⟨.RPC_REQUEST_RESPONSE_UNIQUE, pA.path, pathList⟩ : Annotation) ∈
     lint {} Rule.all (setResponseType pA.path pathList pList.inType pw) :=
-  plant_rpc_same_type_detected {} Rule.all pw pA pw_clean (by decide) (by decide) pA_at pathList pSvc pList pList_mem
+  plant_rpc_same_type_detected {} Rule.all pw pA pw_clean (by decide) (by decide) pw_full_names pA_at pathList pSvc pList pList_mem
     (by decide) rfl (by decide)
 
 -- a package without version suffix (and not matching the directory): exactly the two annotations
